@@ -697,6 +697,9 @@ func sortedCompact(rv ssa.Value, fn *ssa.Function) bool {
 			return sortedBefore(call.Call.Args[0], call.Block())
 		}
 	}
+	if inPlaceSqueeze(rv, fn, sortedBefore) {
+		return true
+	}
 	// the appends that feed rv
 	var appends []*ssa.Call
 	seen := map[ssa.Value]bool{}
@@ -806,6 +809,158 @@ func sortedCompact(rv ssa.Value, fn *ssa.Function) bool {
 			}
 		}
 		if !skips {
+			return false
+		}
+	}
+	return true
+}
+
+// inPlaceSqueeze: rv is a prefix S[:w+1] (or S itself where nothing was cut) of a slice S that was sorted and then squeezed
+// in place: behind the sort the only writes to S are S[w] = S[i] in a block entered on the unequal outcome of a
+// comparison of two elements of S (the first of every run of equal values is kept), and the cut uses the write index.
+func inPlaceSqueeze(rv ssa.Value, fn *ssa.Function, sortedBefore func(ssa.Value, *ssa.BasicBlock) bool) bool {
+	var base ssa.Value
+	var cuts []*ssa.Slice
+	sortArg := map[string]bool{}
+	for _, b := range fn.Blocks {
+		for _, in := range b.Instrs {
+			if cl, ok := in.(*ssa.Call); ok {
+				if cf := cl.Call.StaticCallee(); cf != nil && cf.Pkg != nil && len(cl.Call.Args) > 0 &&
+					((cf.Pkg.Pkg.Path() == "sort" && cf.Name() == "Ints") || (cf.Pkg.Pkg.Path() == "slices" && cf.Name() == "Sort")) {
+					sortArg[canon(cl.Call.Args[0])] = true
+				}
+			}
+		}
+	}
+	seen := map[ssa.Value]bool{}
+	var walk func(v ssa.Value) bool
+	walk = func(v ssa.Value) bool {
+		if seen[v] {
+			return true
+		}
+		seen[v] = true
+		if sortArg[canon(v)] {
+			if base != nil && canon(base) != canon(v) {
+				return false
+			}
+			base = v
+			return true
+		}
+		switch x := v.(type) {
+		case *ssa.Phi:
+			for _, e := range x.Edges {
+				if !walk(e) {
+					return false
+				}
+			}
+			return true
+		case *ssa.Slice:
+			if x.Low != nil || x.High == nil {
+				return false
+			}
+			cuts = append(cuts, x)
+			return walk(x.X)
+		}
+		if base != nil && canon(base) != canon(v) {
+			return false
+		}
+		base = v
+		return true
+	}
+	if !walk(rv) || base == nil || len(cuts) == 0 {
+		return false
+	}
+	elemOf := func(v ssa.Value) (ssa.Value, bool) {
+		switch y := v.(type) {
+		case *ssa.UnOp:
+			if ia, ok := y.X.(*ssa.IndexAddr); ok && y.Op == token.MUL && canon(ia.X) == canon(base) {
+				return ia.Index, true
+			}
+		}
+		return nil, false
+	}
+	var sortBlock *ssa.BasicBlock
+	for _, b := range fn.Blocks {
+		for _, in := range b.Instrs {
+			if cl, ok := in.(*ssa.Call); ok {
+				if cf := cl.Call.StaticCallee(); cf != nil && cf.Pkg != nil && len(cl.Call.Args) > 0 && canon(cl.Call.Args[0]) == canon(base) &&
+					((cf.Pkg.Pkg.Path() == "sort" && cf.Name() == "Ints") || (cf.Pkg.Pkg.Path() == "slices" && cf.Name() == "Sort")) {
+					sortBlock = b
+				}
+			}
+		}
+	}
+	if sortBlock == nil {
+		return false
+	}
+	for _, c := range cuts {
+		if !sortedBefore(base, c.Block()) {
+			return false
+		}
+	}
+	var writeIdx []ssa.Value
+	for _, b := range fn.Blocks {
+		if b == sortBlock || !sortBlock.Dominates(b) {
+			continue
+		}
+		for _, in := range b.Instrs {
+			st, ok := in.(*ssa.Store)
+			if !ok {
+				continue
+			}
+			ia, ok := st.Addr.(*ssa.IndexAddr)
+			if !ok || canon(ia.X) != canon(base) {
+				continue
+			}
+			if _, isElem := elemOf(st.Val); !isElem {
+				return false
+			}
+			// the block is entered only when two elements of S differ
+			guarded := false
+			for d := b; d != nil && d.Idom() != nil && d != sortBlock; d = d.Idom() {
+				id := d.Idom()
+				if len(d.Preds) != 1 || d.Preds[0] != id {
+					continue
+				}
+				cond, neg, ok := branchCond(id, d)
+				if !ok {
+					continue
+				}
+				bo, ok := cond.(*ssa.BinOp)
+				if !ok || (bo.Op != token.EQL && bo.Op != token.NEQ) {
+					continue
+				}
+				_, xe := elemOf(bo.X)
+				_, ye := elemOf(bo.Y)
+				if xe && ye && (bo.Op == token.NEQ) != neg {
+					guarded = true
+				}
+			}
+			if !guarded {
+				return false
+			}
+			writeIdx = append(writeIdx, ia.Index)
+		}
+	}
+	if len(writeIdx) == 0 {
+		return false
+	}
+	// the cut is made at the write index
+	for _, c := range cuts {
+		rel := false
+		backslice(c.High, func(x ssa.Value) bool {
+			for _, w := range writeIdx {
+				wb := w
+				if bo, ok := w.(*ssa.BinOp); ok {
+					wb = bo.X
+				}
+				if x == w || x == wb {
+					rel = true
+				}
+			}
+			return !rel
+		})
+		if !rel {
 			return false
 		}
 	}
